@@ -24,6 +24,7 @@ def jobs(ctx, props):
             if not quick:
                 reqs = 2 if len(desc['algs']) >= 4 and len(targets) == 2 else 3
             out.append((name, desc, targets, props, {'reqs': reqs}))
+    out += schedcheck.timer_jobs(props, quick)
     return out
 
 
